@@ -642,9 +642,60 @@ func runCodecProps(r *rt.Runner, prop string) {
 			}
 			cases = append(cases, od{"string=invalid-utf8", func(m *dynamicpb.Message) { m.Set(fld("l_string_"), protoreflect.ValueOfString("bad\xff\xfeutf8")) }})
 			cases = append(cases, od{"enum=undefined", func(m *dynamicpb.Message) { m.Set(fld("l_enum_"), protoreflect.ValueOfEnum(77)) }})
+			// the same values below containers: a leaf as nested object, array element and map value of the sink, and a few
+			// scalars directly as array elements and map values
+			sinkMD := env.ct.message("verif.sink.v1.Sink")
+			sfld := func(prefix string) protoreflect.FieldDescriptor {
+				for i := 0; i < sinkMD.Fields().Len(); i++ {
+					f := sinkMD.Fields().Get(i)
+					if strings.HasPrefix(string(f.Name()), prefix) {
+						return f
+					}
+				}
+				panic("harness: no sink field " + prefix)
+			}
+			type wrapped struct {
+				name string
+				m    *dynamicpb.Message
+			}
+			var all []wrapped
 			for _, k := range cases {
-				m := newDyn(leafMD)
-				k.set(m)
+				leaf := newDyn(leafMD)
+				k.set(leaf)
+				all = append(all, wrapped{k.name, leaf})
+				for _, pos := range []string{"s_leaf_", "r_leaf_", "m_leaf_"} {
+					sm := newDyn(sinkMD)
+					l2 := newDyn(leafMD)
+					k.set(l2)
+					f := sfld(pos)
+					switch {
+					case f.IsList():
+						lst := sm.Mutable(f).List()
+						lst.Append(protoreflect.ValueOfMessage(newDyn(leafMD)))
+						lst.Append(protoreflect.ValueOfMessage(l2))
+					case f.IsMap():
+						mp := sm.Mutable(f).Map()
+						mp.Set(protoreflect.ValueOfString("a").MapKey(), protoreflect.ValueOfMessage(l2))
+						mp.Set(protoreflect.ValueOfString("b").MapKey(), protoreflect.ValueOfMessage(newDyn(leafMD)))
+					default:
+						sm.Set(f, protoreflect.ValueOfMessage(l2))
+					}
+					all = append(all, wrapped{k.name + "@" + pos, sm})
+				}
+			}
+			for _, sc := range []struct {
+				prefix string
+				v      protoreflect.Value
+			}{{"enum_", protoreflect.ValueOfEnum(77)}, {"string_", protoreflect.ValueOfString("bad\xff\xfeutf8")}, {"double_", protoreflect.ValueOfFloat64(math.NaN())}, {"float_", protoreflect.ValueOfFloat32(float32(math.Inf(1)))}} {
+				sm := newDyn(sinkMD)
+				sm.Mutable(sfld("r_" + sc.prefix)).List().Append(sc.v)
+				all = append(all, wrapped{"array-element:" + sc.prefix, sm})
+				sm = newDyn(sinkMD)
+				sm.Mutable(sfld("m_" + sc.prefix)).Map().Set(protoreflect.ValueOfString("k").MapKey(), sc.v)
+				all = append(all, wrapped{"map-value:" + sc.prefix, sm})
+			}
+			for _, k := range all {
+				m := k.m
 				c.Eval(rt.Hash("ood", k.name), true)
 				var b []byte
 				var err error
